@@ -106,6 +106,13 @@ def _one_cash_write(ctx, rule, qn, p, attr, expected_delta, what):
     w = ws[0]
     d = delta(w)
     ok = d is not None and same(p, d, expected_delta)
+    if not ok and d is not None:
+        from ..lib import unread_atoms
+        ur = unread_atoms(ctx.M, d, expected_delta)
+        if ur:
+            ctx.undecided(rule, '%s: %s changes by %s on path [%s]' % (qn, attr, what, cond_str(p)), w.site,
+                          'delta is %s: %s is a stored or computed figure this rule does not relate to the expected operands' % (fmt(d)[:120], fmt(ur[0])[:60]))
+            return w
     ctx.require(ok, rule, '%s: %s changes by %s on path [%s]' % (qn, attr, what, cond_str(p)), w.site,
                 'delta is %s, expected %s' % (fmt(d) if d is not None else 'not additive', fmt(expected_delta)), key='%s|%s|delta' % (rule, qn))
     return w
@@ -208,7 +215,11 @@ def s4_one_debit_per_fill(ctx):
         if not ctx.require(ok if ok else None, 'C01.S4', 'the debited object is a freshly built Transaction', cs[0].site, fmt(txn) if txn else None):
             continue
         f = dict(txn[2])
-        fee = [e for e in p.flat_events() if e.kind == 'call' and any(c.endswith('.calc_total_cost') for c in e.callee)]
+        fee = [e for e in p.flat_events() if e.kind == 'call' and any(c.endswith('.calc_total_cost') or c == 'meth:calc_total_cost' for c in e.callee)]
+        if f.get('commission') is None or f.get('quantity') is None:
+            ctx.undecided('C01.S4', 'the commission debited is the unmodified result of the one fee-model call [%s]' % cond_str(p), cs[0].site,
+                          'the Transaction record does not show its commission/quantity: %s' % fmt(txn)[:120])
+            continue
         ctx.require(len(fee) == 1 and T.teq(f.get('commission'), fee[0].result), 'C01.S4',
                     'the commission debited is the unmodified result of the one fee-model call [%s]' % cond_str(p), cs[0].site,
                     'commission=%s' % fmt(f.get('commission', ZERO)), key='C01.S4|commission')
@@ -299,6 +310,13 @@ def s5_history(ctx):
             for fld, alts in exp.items():
                 got = f.get(fld)
                 ok = got is not None and any(same(p, got, a) for a in alts)
+                if not ok and got is not None:
+                    from ..lib import unread_atoms
+                    ur = unread_atoms(ctx.M, got, list(alts))
+                    if ur:
+                        ctx.undecided('C01.S5', '%s: history %s = %s on path [%s]' % (qn, fld, fmt(alts[0]), cond_str(p)), e.site,
+                                      'recorded %s: %s is not related by this rule to the expected operands' % (fmt(got)[:100], fmt(ur[0])[:60]))
+                        continue
                 ctx.require(ok, 'C01.S5', '%s: history %s = %s on path [%s]' % (qn, fld, fmt(alts[0]), cond_str(p)), e.site,
                             'recorded %s' % (fmt(got) if got is not None else None), key='C01.S5|%s|%s' % (qn, fld))
             ctx.sample({'rule': 'C01.S5', 'function': qn, 'path': cond_str(p), 'event': {k: fmt(v) for k, v in f.items() if k in ('debit', 'credit', 'balance', 'type')}})
